@@ -282,81 +282,57 @@ def rule_fq2_order(fx, rep):
                 out.append(None)
         return tuple(out)
 
-    def tr(I, fr, t, c, pth):
-        if c.get('trait') == 'std::cmp::Ord' and c.get('name') == 'cmp':
-            fr.storev(t['dest'], ('ordering', comp_pair(fr, t), c.get('self_ty')))
-            return True
-        return False
+    # all nine outcomes of (cmp(c1, c1'), cmp(c0, c0')): the result is the c1 ordering unless that is Equal, then the c0 ordering
+    import itertools
+    names = ('Less', 'Equal', 'Greater')
 
-    class OrdInterp(exp.Interp):
-        pass
-    I = exp.Interp(fx, 'none', extra_transfer=tr)
-    # discriminant of an ('ordering', ..) value: fork three ways via a custom hook: model as unknown discr
-    # -> the generic interpreter forks on unknown switch values with label 'switch@..'; we attach the
-    #    compared components through the Origin of the discriminant.
-    from wire import Origin, strip
-    o = Origin(b)
-    res = I.run(p, [('byref', Agg(['c0', 'c1'])), ('byref', Agg(['c0', 'c1']))])
-    # find the switch on the discriminant of the first comparison
-    sw = [(i, blk['term']) for i, blk in enumerate(b.blocks) if blk['term']['k'] == 'switch' and i in b.reachable()]
-    ok = len(sw) == 1
-    why = '%d switches' % len(sw)
-    if ok:
-        d = strip(o.operand(sw[0][1]['discr']))
-        ok = d[0] == 'discr' and d[1][0] == 'call' and d[1][1].get('name') == 'cmp'
-        first = None
-        if ok:
-            # which components does the first comparison look at?
-            pass
-    outcomes = {}
-    for pth, ret, _ in res:
-        key = tuple(v for _, v in pth.labels)
-        outcomes[key] = ret
-    # expected: -1 (255) -> Less, 1 -> Greater, 0 -> cmp(c0, c0)
-    good = True
-    det = []
-    for key, ret in outcomes.items():
-        v = key[0] if key else None
-        if v in (255, -1):
-            g = isinstance(ret, Agg) and ret.kind and ret.kind[1] == 'Less'
-        elif v == 1:
-            g = isinstance(ret, Agg) and ret.kind and ret.kind[1] == 'Greater'
-        elif v == 0:
-            g = ret == ('ordering', (0, 0), FQ)
-        else:
-            g = False
-        if not g:
-            good = False
-            det.append('first comparison = %r -> %r' % (v, ret))
-    # the first comparison is on c1 of both operands
-    firsts = [t for _, t in b.calls() if (callee(t) or {}).get('name') == 'cmp']
-    okfirst = False
-    if firsts:
-        from mirutil import Resolver
-        r = Resolver(b)
-        first_call = sorted(b.calls(), key=lambda x: x[0])[0][1]
-        a0 = r.operand_referent(first_call['args'][0])
-        a1 = r.operand_referent(first_call['args'][1])
+    def lex_table(path, partial):
+        bad = []
+        for o1, o0 in itertools.product(names, repeat=2):
+            seen_pairs = []
 
-        def comp_(ref, l):
-            if ref and ref[0] == 'place' and ref[1]['l'] == l:
-                fs = [e[1] for e in ref[1]['p'] if e[0] == 'f']
-                return fs[0] if len(fs) == 1 else None
-            return None
-        okfirst = comp_(a0, 1) == 1 and comp_(a1, 2) == 1
-    rep.check(good and okfirst and len(outcomes) == 3, 'SHAPE', 'Fq2::cmp', 'lexicographic with c1 (the u-coefficient) most significant, then c0',
-              '; '.join(det) or 'the first comparison is not c1 vs c1 (%d outcomes)' % len(outcomes), where, construct=p)
-    # partial_cmp = Some(cmp)
+            def tr(I, fr, t, c, pth):
+                if c.get('trait') in ('std::cmp::Ord', 'std::cmp::PartialOrd') and c.get('name') in ('cmp', 'partial_cmp') and c.get('self_ty') != FQ2:
+                    pr = comp_pair(fr, t)
+                    seen_pairs.append((pr, c.get('self_ty')))
+                    nm = o1 if pr == (1, 1) else (o0 if pr == (0, 0) else None)
+                    if nm is None:
+                        return False
+                    v = Agg([], ('std::cmp::Ordering', nm))
+                    fr.storev(t['dest'], v if c.get('name') == 'cmp' else exp.Opt('some', v))
+                    return True
+                return False
+            I = exp.Interp(fx, 'none', extra_transfer=tr, inline=lambda q: q == p)
+            I.fork_inlined = True
+            try:
+                res = I.run(path, [('byref', Agg(['c0', 'c1'])), ('byref', Agg(['c0', 'c1']))])
+            except (exp.NotDerivable, exp.Budget) as e:
+                bad.append('not derivable: %s' % e)
+                break
+            want = o1 if o1 != 'Equal' else o0
+            got = []
+            for r in res:
+                v = r[1]
+                if partial:
+                    v = v.payload if isinstance(v, exp.Opt) and v.tag == 'some' else ('not-Some', v)
+                got.append(v.kind[1] if isinstance(v, Agg) and v.kind else repr(v))
+            if got != [want]:
+                bad.append('u-coefficients compare %s and real parts compare %s: returns %s, expected %s%s' % (o1, o0, got, 'Some of ' if partial else '', want))
+            for pr, ty in seen_pairs:
+                if pr not in ((1, 1), (0, 0)) or ty != FQ:
+                    bad.append('compares components %r of type %s' % (pr, ty))
+        return bad
+    bad = lex_table(p, False)
+    rep.check(not bad, 'SHAPE', 'Fq2::cmp', 'lexicographic with c1 (the u-coefficient) most significant, then c0 (all nine outcome pairs)',
+              '; '.join(sorted(set(bad))[:3]), where, construct=p)
+    # partial_cmp agrees with cmp (the comparison operators <, > go through it)
     pp = fx.impl_method('std::cmp::PartialOrd', FQ2, 'partial_cmp')
-    pb = fx.body(pp) if pp else None
-    ok = False
-    if pb is not None:
+    if pp and fx.body(pp) is not None:
         rep.fn(pp)
-        o2 = Origin(pb)
-        t = o2.local(0)
-        ok = (t[0] == 'agg' and t[1].get('variant_name') == 'Some' and t[2][0][0] == 'call' and t[2][0][1].get('name') == 'cmp'
-              and t[2][0][1].get('self_ty') == FQ2 and [strip(x) for x in t[2][0][2]] == [('param', 1), ('param', 2)])
-    rep.check(ok, 'SHAPE', 'Fq2::partial_cmp', 'partial_cmp = Some(cmp(self, other))', 'partial_cmp is not Some(self.cmp(other))')
+        bad = lex_table(pp, True)
+        rep.check(not bad, 'SHAPE', 'Fq2::partial_cmp', 'partial_cmp = Some(the same lexicographic order) for all nine outcome pairs', '; '.join(sorted(set(bad))[:3]), fx.fn(pp)['span'], construct=pp)
+    else:
+        rep.fail('SHAPE', 'Fq2::partial_cmp', 'PartialOrd for Fq2 not found')
     over = [it['name'] for i in fx.impls_of('std::cmp::PartialOrd', FQ2) for it in i['items'] if it['name'] in ('lt', 'le', 'gt', 'ge')]
     rep.check(not over, 'SHAPE', 'Fq2::PartialOrd:no-overrides', 'lt/gt/le/ge are the std defaults over partial_cmp', 'overridden: %s' % over)
 
